@@ -34,7 +34,10 @@ def run(chk, tier):
     f = prog.find(r'Strategy::update_round$')
     chk.fn_seen(f['path'])
     st = St()
-    outs = eng0.run(f, [eng0.sym_ref(st, 'self'), eng0.sym_ref(st, 'st')], st)
+    # private free helpers of the module (e.g. an extracted `elapsed(start, end)`) are part of the expression being decided: inlined; the named
+    # predicate `exceeds` (R1e) and every method stay opaque
+    engu = Engine(prog, inline_depth=2, inline_filter=lambda c: bool(re.fullmatch(r'trippy_core::strategy::\w+', c)) and not c.endswith('::exceeds'))
+    outs = engu.run(f, [engu.sym_ref(st, 'self'), engu.sym_ref(st, 'st')], st)
     cfgf = lambda n: r'self\.config\.%s' % n
     atoms = [
         Atom('min', r'Gt\(%s, %s\)' % (DUR, cfgf('min_round_duration')) + '|' + r'Lt\(%s, %s\)' % (cfgf('min_round_duration'), DUR),
